@@ -129,7 +129,7 @@ def render(case):
             line = "%s\n" % ref
         elif s["pos"] == "multiline":
             # the call stands on a continuation line of a statement that follows a deeper-indented block
-            line = "if w:\n    pass\nr%d = (1 +\n    %s)\nprint(r%d)\n" % (k, ref, k)
+            line = "if not w:\n    pass\nr%d = (1 +\n    %s)\nprint(r%d)\n" % (k, ref, k)
         elif s["pos"] == "assign":
             line = "r%d = %s\nprint(r%d)\n" % (k, ref, k)
         elif s["pos"] == "nested":
